@@ -205,8 +205,20 @@ impl Pos {
     pub fn material_reachable(&self) -> bool {
         for c in [C::White, C::Black] {
             let pawns = self.kind_count(c, P::Pawn);
+            // a side starts with one bishop on each square colour
+            let (mut light, mut dark) = (0usize, 0usize);
+            for s in 0..64u8 {
+                if self.sq[s as usize] == Some((c, P::Bishop)) {
+                    if (fl(s) + rk(s)) % 2 == 1 {
+                        light += 1;
+                    } else {
+                        dark += 1;
+                    }
+                }
+            }
             let surplus = self.kind_count(c, P::Knight).saturating_sub(2)
-                + self.kind_count(c, P::Bishop).saturating_sub(2)
+                + light.saturating_sub(1)
+                + dark.saturating_sub(1)
                 + self.kind_count(c, P::Rook).saturating_sub(2)
                 + self.kind_count(c, P::Queen).saturating_sub(1);
             if pawns + surplus > 8 || self.kind_count(c, P::King) != 1 {
@@ -744,6 +756,31 @@ impl Pos {
             // been left attacked
             if before.attacked(before.king(self.turn).unwrap(), them) {
                 return false;
+            }
+            // after a double step the only possible checkers are the pawn itself and a line piece
+            // uncovered through the square the pawn left
+            let k = self.king(self.turn).unwrap();
+            for c in self.checkers() {
+                if c == pawn {
+                    continue;
+                }
+                let slider = matches!(self.sq[c as usize], Some((_, P::Bishop | P::Rook | P::Queen)));
+                let (df, dr) = ((fl(k) - fl(c)).signum(), (rk(k) - rk(c)).signum());
+                let mut through = false;
+                let (mut f, mut r) = (fl(c) + df, rk(c) + dr);
+                while let Some(t) = mk(f, r) {
+                    if t == k {
+                        break;
+                    }
+                    if t == origin {
+                        through = true;
+                    }
+                    f += df;
+                    r += dr;
+                }
+                if !slider || !through {
+                    return false;
+                }
             }
         }
         true
